@@ -154,10 +154,11 @@ def gen_case(rng):
         m = min(len({repr(v) for v in f["col"]}), int(1 / min_freq) + 1)
         while max_n_mod > 2 and math.comb(max(m - 1, 0), max_n_mod - 1) > 4000:
             max_n_mod -= 1
+    int_names = klass != "MulticlassCarver" and rng.random() < 0.1   # integer column labels 0, 1, 2 (0 is falsy)
     kwargs = rng.choice([{}, {}, {}, {"str_nan": "MISSING"}, {"str_default": "RARE"},
                          {"str_nan": "MISSING", "str_default": "RARE"}])
     return {"klass": klass, "y": y, "features": feats, "min_freq": min_freq,
-            "kwargs": kwargs,
+            "kwargs": kwargs, "int_names": int_names,
             "max_n_mod": max_n_mod, "dropna": rng.random() < 0.6,
             "output_dtype": rng.choice(["float", "str"]), "sort_by": rng.choice(["tschuprowt", "cramerv"]),
             "min_freq_mod": rng.choice([None, None, 0.05, 0.3])}
@@ -172,17 +173,32 @@ def build(case):
             cols[name] = np.array(vals, dtype="int64")
         else:
             cols[name] = np.array(vals, dtype=float) if f["kind"] == "quant" else pd.Series(vals, dtype=object)
-    return pd.DataFrame(cols), pd.Series(case["y"])
+    X = pd.DataFrame(cols)
+    if case.get("int_names"):
+        X.columns = [list(case["features"]).index(c) for c in X.columns]
+    return X, pd.Series(case["y"])
+
+
+def col_of(case, name):
+    """column label used for feature `name` (an integer position when the case asks for integer labels)"""
+    return list(case["features"]).index(name) if case.get("int_names") else name
+
+
+def name_of(case, col):
+    """inverse of col_of for raw columns; class-suffixed columns of MulticlassCarver keep their own name"""
+    if case.get("int_names") and isinstance(col, (int, np.integer)) and 0 <= int(col) < len(case["features"]):
+        return list(case["features"])[int(col)]
+    return col
 
 
 def make_obj(case):
     from AutoCarver import BinaryCarver, ContinuousCarver, MulticlassCarver
     from AutoCarver.discretizers import Discretizer, QualitativeDiscretizer, QuantitativeDiscretizer
     fs = case["features"]
-    quant = [n for n, f in fs.items() if f["kind"] == "quant"]
-    categ = [n for n, f in fs.items() if f["kind"] == "categ"]
-    ordi = [n for n, f in fs.items() if f["kind"] == "ordinal"]
-    vo = {n: decs(fs[n]["order"]) for n in ordi}
+    quant = [col_of(case, n) for n, f in fs.items() if f["kind"] == "quant"]
+    categ = [col_of(case, n) for n, f in fs.items() if f["kind"] == "categ"]
+    ordi = [col_of(case, n) for n, f in fs.items() if f["kind"] == "ordinal"]
+    vo = {col_of(case, n): decs(fs[n]["order"]) for n, f in fs.items() if f["kind"] == "ordinal"}
     k = case["klass"]
     extra = dict(case.get("kwargs") or {})
     if k == "Discretizer":
@@ -261,6 +277,13 @@ class C08(Prop):
     def corpus(self):
         """discrete features whose rare values are almost as frequent as a quantile (O1 shapes)"""
         cs = []
+        import glob
+        import json
+        import os
+        for f in sorted(glob.glob(os.path.join(C.VERIF, "corpus", "findings", "*_c08_*.json"))):
+            c = json.load(open(f)).get("case")
+            if isinstance(c, dict) and "klass" in c:
+                cs.append(c)
         for counts, mf in (([7, 3, 3, 4, 6, 6, 7, 7], 1 / 7), ([165, 9, 9, 9, 4, 4], 0.05), ([19, 90] + [1] * 91, 0.1)):
             col = []
             for v, c in enumerate(counts):
@@ -300,20 +323,22 @@ class C08(Prop):
             return {"fit": "internal", "error": f"{type(e).__name__}: {e}"[:300], "where": where}
         out["fit"] = "ok"
         feats = list(obj.features)
-        out["features"] = sorted(feats)
+        nm = lambda c: name_of(case, c)  # noqa: E731
+        skey = lambda xs: sorted(str(nm(x)) for x in xs)  # noqa: E731
+        out["features"] = skey(feats)
         out["dup_features"] = len(feats) != len(set(feats))
         casted = {c: raw for raw, cs in obj.features_casting.items() for c in cs}
         out["keysets"] = {
-            "values_orders": sorted(obj.values_orders) == sorted(feats),
-            "input_dtypes": sorted(obj.input_dtypes) == sorted(feats),
-            "labels_per_values": sorted(obj.labels_per_values) == sorted(feats),
-            "features_dropna": sorted(obj.features_dropna) == sorted(feats),
-            "features_casting": sorted(casted) == sorted(feats),
+            "values_orders": skey(obj.values_orders) == skey(feats),
+            "input_dtypes": skey(obj.input_dtypes) == skey(feats),
+            "labels_per_values": skey(obj.labels_per_values) == skey(feats),
+            "features_dropna": skey(obj.features_dropna) == skey(feats),
+            "features_casting": skey(casted) == skey(feats),
         }
         per = {}
         Xfresh, _ = build(case)
         for f in feats:
-            raw = casted.get(f, f)
+            raw = nm(casted.get(f, f))
             g = obj.values_orders[f]
             colv = decs(case["features"][raw]["col"])
             nonmiss = [v for v in colv if not C.is_nan(v)]
@@ -322,20 +347,20 @@ class C08(Prop):
                 if not any((type(v) is type(w) or (not isinstance(v, str) and not isinstance(w, str))) and v == w
                            for w in distinct):
                     distinct.append(v)
-            per[f] = {"quant": obj.input_dtypes[f] == "float", "keys": encs(list(g)),
+            per[str(nm(f))] = {"quant": obj.input_dtypes[f] == "float", "keys": encs(list(g)),
                       "content": [[enc(k), encs(v)] for k, v in g.content.items()],
                       "train": encs(distinct), "has_nan": len(nonmiss) != len(colv), "str_nan": obj.str_nan, "raw": raw}
         out["per"] = per
         # summary / history / transform
         try:
             s = obj.summary()
-            out["summary_features"] = sorted(set(s.index.get_level_values("feature"))) if len(s) else []
+            out["summary_features"] = skey(set(s.index.get_level_values("feature"))) if len(s) else []
         except Exception as e:  # noqa: BLE001
             out["summary_error"] = f"{type(e).__name__}: {e}"[:200]
         try:
             h = obj.history()
             if h is not None and len(h):
-                out["history_features"] = sorted(set(h["feature"])) if "feature" in h else []
+                out["history_features"] = skey(set(h["feature"])) if "feature" in h else []
             else:
                 out["history_features"] = None if h is None else []
         except Exception as e:  # noqa: BLE001
@@ -344,8 +369,9 @@ class C08(Prop):
             Xt = obj.transform(Xfresh.copy())
             untouched = {}
             for raw in case["features"]:
-                if raw not in feats and raw not in obj.features_casting:
-                    a, b = Xt[raw], Xfresh[raw]
+                col_ = col_of(case, raw)
+                if col_ not in feats and col_ not in obj.features_casting:
+                    a, b = Xt[col_], Xfresh[col_]
                     untouched[raw] = bool(((a == b) | (a.isna() & b.isna())).all())
             out["untouched"] = untouched
         except Exception as e:  # noqa: BLE001
